@@ -417,6 +417,7 @@ type FuncContract struct {
 	NoOverflow bool
 	MayPanic   bool // callers must not rely on absence of panics
 	NoPanicCheck bool // do not emit nopanic obligations (functional contract only)
+	MakeBound  *Clause  // every make() in the body allocates at most this many elements
 	Excuses    []Clause // known-finding excuses keyed by obligation label
 	File       string
 	Line       int
@@ -462,7 +463,7 @@ type ContractFile struct {
 var clauseKW = map[string]bool{"func": true, "spec": true, "uf": true, "lemma": true, "axiom": true,
 	"props": true, "requires": true, "ensures": true, "panics": true, "modifies": true, "loop": true,
 	"inline": true, "assumed": true, "pure": true, "nooverflow": true, "maypanic": true, "nopaniccheck": true,
-	"split": true, "excuse": true}
+	"split": true, "excuse": true, "makebound": true}
 
 var labelRe = regexp.MustCompile(`^([A-Za-z_][A-Za-z0-9_]*):\s+(.*)$`)
 
@@ -595,6 +596,12 @@ func parseContractFile(path, pkg string) (*ContractFile, error) {
 				return nil, fmt.Errorf("%s: clause %q outside func", pos, kw)
 			}
 			switch kw {
+			case "makebound":
+				c, err := mkClause(rest, ll.line)
+				if err != nil {
+					return nil, err
+				}
+				cur.MakeBound = &c
 			case "requires", "ensures", "panics", "modifies", "excuse":
 				if kw == "modifies" {
 					cur.HasModifies = true
